@@ -415,8 +415,13 @@ class Sys:
                                 required_roles=set(), data_log_interval_seconds=INTERVAL)
             r = self._send(msg)
             m.uod_since_reg = True
-            # like the real engine, follow up with the snapshot of the system tags (here: System State only)
-            self._send(EM.TagsUpdatedMsg(tags=[self._system_state_tag(m.clock)], run_id=m.eng_run))
+            # like the real engine, follow up with a snapshot of all tags: System State and every tag reported so far, each
+            # with the time and value of its last report
+            snap = [self._system_state_tag(m.clock)]
+            for tag in sorted(m.last_report):
+                t = m.last_report[tag]
+                snap.append(PM.TagValue(name=tag, tick_time=t, value=value_of(tag, t), value_unit="u"))
+            self._send(EM.TagsUpdatedMsg(tags=snap, run_id=m.eng_run))
             return r
         if ev in ("rs1", "rs2"):
             rid = "r" + ev[-1]
